@@ -66,6 +66,16 @@ pub struct PropDef {
     pub assumptions: &'static [&'static str],
 }
 
+/// start (ms since epoch) of the execution in flight, 0 if none: read by the watchdog thread
+pub static EXEC_START_MS: std::sync::atomic::AtomicU64 = std::sync::atomic::AtomicU64::new(0);
+
+fn now_ms() -> u64 {
+    std::time::SystemTime::now()
+        .duration_since(std::time::UNIX_EPOCH)
+        .map(|d| d.as_millis() as u64)
+        .unwrap_or(0)
+}
+
 thread_local! {
     static LAST_PANIC: RefCell<Option<(String, u32, String)>> = RefCell::new(None);
     static PANIC_FILE: RefCell<Option<PathBuf>> = RefCell::new(None);
@@ -302,7 +312,9 @@ impl Ctx {
             }
         }
         LAST_PANIC.with(|l| *l.borrow_mut() = None);
+        EXEC_START_MS.store(now_ms(), std::sync::atomic::Ordering::Relaxed);
         let r = catch_unwind(AssertUnwindSafe(|| f(self)));
+        EXEC_START_MS.store(0, std::sync::atomic::Ordering::Relaxed);
         match r {
             Ok(v) => Some(v),
             Err(_) => {
@@ -390,6 +402,16 @@ pub fn worker_main(prop: &PropDef, tier: Tier, shard: usize, nshards: usize, dir
             ctx.poison.insert(l.to_string());
         }
     }
+    // watchdog: a single execution that takes longer than the limit is a verdict (timeout)
+    let limit_ms: u64 = std::env::var("YV_EXEC_LIMIT_MS").ok().and_then(|s| s.parse().ok()).unwrap_or(30_000);
+    std::thread::spawn(move || loop {
+        std::thread::sleep(Duration::from_millis(250));
+        let s = EXEC_START_MS.load(std::sync::atomic::Ordering::Relaxed);
+        if s != 0 && now_ms().saturating_sub(s) > limit_ms {
+            eprintln!("WATCHDOG: execution exceeded {} ms", limit_ms);
+            std::process::exit(97);
+        }
+    });
     (prop.run)(&mut ctx);
     ctx.write_result(dir);
     0
@@ -600,6 +622,19 @@ pub fn supervise(prop: &PropDef, tier: Tier) -> i32 {
                     running.swap_remove(i);
                 }
             }
+        }
+        if now_ms() > deadline_ms + 45_000 {
+            // workers check the deadline between executions; whoever is still here is killed and
+            // its shard counted as incomplete (never as a verdict)
+            for r in running.iter_mut() {
+                let _ = r.child.kill();
+                let _ = r.child.wait();
+                incomplete_shards += 1;
+            }
+            incomplete_shards += queue.len();
+            running.clear();
+            queue.clear();
+            break;
         }
         if !progressed {
             std::thread::sleep(Duration::from_millis(15));
